@@ -3,16 +3,16 @@ CONSTANTS
   Keys = {"a", "b"}
   Vals = {"v1"}
   MaxOps = 3
-  MaxGen = 4
+  MaxGen = 3
   MaxWal = 3
-  MaxCrash = 2
+  MaxCrash = 1
   DropTombAlways = FALSE
   SizeRotate = FALSE
-  WalRemoveAnyOrder = TRUE
+  WalRemoveAnyOrder = FALSE
   RecFinishRenameFirst = FALSE
   Async = FALSE
   RotateDropsBuffer = FALSE
-  RotateInflight = FALSE
+  RotateInflight = TRUE
 INVARIANTS CrashSafe ReadsLikeMap
 PROPERTIES StepProperty
 CHECK_DEADLOCK FALSE
